@@ -161,6 +161,22 @@ def find (t : Table) (id : Id) : Except Fault (Option Peer) :=
 /-- `ListPeers` -/
 def Table.peers (t : Table) : List Peer := t.buckets.flatten
 
+/-! ## The structural invariant (C37) -/
+
+/-- every peer of bucket `i` has `i = min(cpl(peer, local), last bucket index)` -/
+def Placed (t : Table) : Prop :=
+  ∀ i b, t.buckets[i]? = some b → ∀ p ∈ b, i = min (cpl p.id t.loc) (t.buckets.length - 1)
+
+def Inv (t : Table) : Prop :=
+  t.buckets ≠ [] ∧
+  (t.peers.map (·.id)).Nodup ∧                      -- every peer at most once
+  (∀ b ∈ t.buckets, b.length ≤ t.bucketsize) ∧     -- no bucket exceeds the bucket size
+  Placed t
+
+/-- sorted by XOR distance to `target` (non-strict: `¬ (later < earlier)`) -/
+def SortedByDist (target : Id) (l : List Peer) : Prop :=
+  l.Pairwise (fun a b => bytesLt (distance target b.id) (distance target a.id) = false)
+
 /-! ## Histories -/
 inductive Op
   | update (p : Peer)
